@@ -684,6 +684,28 @@ def _sleep_us(us: int) -> Any:
 _real_sleep = asyncio.sleep
 
 
+def _resolver_ctx_ordinal(world: World, d: Any) -> Optional[int]:
+    """Observation only: which taskiq_dependencies resolve context is executing this dependency (ordinal per delivery).
+    Used to tell apart the known library behaviour (sub-contexts are closed before their parent's own dependencies) from
+    a wrong order inside one context."""
+    try:
+        from taskiq_dependencies.ctx import BaseResolveContext
+    except Exception:  # pragma: no cover
+        return None
+    f = sys._getframe(2)
+    while f is not None:
+        slf = f.f_locals.get("self")
+        if isinstance(slf, BaseResolveContext):
+            table = world.extra.setdefault("rctx", {}).setdefault(d, {})
+            key = id(slf)
+            if key not in table:
+                table[key] = len(table)
+                world.extra.setdefault("rctx_keep", []).append(slf)   # keep alive: ids stay unique within the run
+            return table[key]
+        f = f.f_back
+    return None
+
+
 def make_dep_funcs(world: World, tspec: dict) -> Dict[str, Any]:
     nodes = {n["id"]: n for n in tspec.get("deps", [])}
     funcs: Dict[str, Any] = {}
@@ -707,13 +729,15 @@ def make_dep_funcs(world: World, tspec: dict) -> Dict[str, Any]:
 
         def opened(kw: dict) -> dict:
             d = DELIVERY.get()
+            rctx = _resolver_ctx_ordinal(world, d)
             ctx = kw.get("ctx")
             seen = None
             if ctx is not None:
                 seen = {"tid": ctx.message.task_id, "args": summarize_value(list(ctx.message.args)),
                         "labels": enc_labels({k: v for k, v in ctx.message.labels.items()})}
-            world.rec("dep_open", d, dep=nid, seen=seen)
-            return {"dep": nid, "seen": seen, "subs": {s: kw.get(s) for s, _ in node.get("deps", [])}}
+            inst = world.extra["dep_inst"] = world.extra.get("dep_inst", 0) + 1
+            world.rec("dep_open", d, dep=nid, seen=seen, rctx=rctx, inst=inst)
+            return {"dep": nid, "seen": seen, "subs": {s: kw.get(s) for s, _ in node.get("deps", [])}, "inst": inst}
 
         def should_fail() -> bool:
             d = DELIVERY.get()
@@ -727,8 +751,8 @@ def make_dep_funcs(world: World, tspec: dict) -> Dict[str, Any]:
             m = world.spec_of(world.server.deliveries[d].k) if d is not None else {}
             return (m.get("dep_us") or {}).get(nid) or node.get("us") or [0, 0]
 
-        def closed(exc: Optional[BaseException]) -> None:
-            world.rec("dep_close", DELIVERY.get(), dep=nid, exc=None if exc is None else type(exc).__name__)
+        def closed(exc: Optional[BaseException], inst: Any = None) -> None:
+            world.rec("dep_close", DELIVERY.get(), dep=nid, exc=None if exc is None else type(exc).__name__, inst=inst)
 
         if style == "plain":
             def f(**kw: Any) -> Any:
@@ -758,7 +782,7 @@ def make_dep_funcs(world: World, tspec: dict) -> Dict[str, Any]:
                     seen = exc
                     raise
                 finally:
-                    closed(seen)
+                    closed(seen, val.get("inst"))
             f = contextmanager(g) if style == "cm" else g  # type: ignore[assignment]
         elif style in ("agen", "acm"):
             async def ag(**kw: Any) -> Any:
@@ -778,7 +802,7 @@ def make_dep_funcs(world: World, tspec: dict) -> Dict[str, Any]:
                 finally:
                     if post and not isinstance(seen, GeneratorExit):
                         await _sleep_us(post)
-                    closed(seen)
+                    closed(seen, val.get("inst"))
             f = asynccontextmanager(ag) if style == "acm" else ag  # type: ignore[assignment]
         else:
             raise ValueError(style)
